@@ -568,6 +568,10 @@ func (b *body) readLocked(p []byte) (n int, err error) {
 		if b.hdr != nil {
 			if e := b.readTrailer(); e != nil {
 				err = e
+				// Something went wrong in the trailer: no later read of this
+				// body may report a clean EOF, or the server would look for
+				// the next request in the middle of the broken trailer.
+				b.src = failedReader{e}
 			}
 			b.hdr = nil
 		} else {
@@ -581,6 +585,11 @@ func (b *body) readLocked(p []byte) (n int, err error) {
 
 	return n, err
 }
+
+// failedReader is a Reader that always fails with err.
+type failedReader struct{ err error }
+
+func (r failedReader) Read([]byte) (int, error) { return 0, r.err }
 
 var (
 	singleCRLF = []byte("\r\n")
